@@ -198,9 +198,10 @@ def run(ctx):
             continue
         doc = _json.loads(out[vg.name])
         for name, t in vg.truth.items():
-            if 'oid' in t and doc.get(name, {}).get('oid') != mibgen.dotted(t['oid']):
+            jn = mibgen.jname(name)
+            if 'oid' in t and doc.get(jn, {}).get('oid') != mibgen.dotted(t['oid']):
                 res.oracle_failures.append({'key': 'json-oid', 'what': '%s has OID %s in the JSON document, the SMIv1 text defines %s' % (
-                    name, doc.get(name, {}).get('oid'), mibgen.dotted(t['oid'])), 'input': {'seed': base + 9500 + i, 'texts': {vg.name: vt}, 'dialect': 'smiV1Relaxed'}})
+                    name, doc.get(jn, {}).get('oid'), mibgen.dotted(t['oid'])), 'input': {'seed': base + 9500 + i, 'texts': {vg.name: vt}, 'dialect': 'smiV1Relaxed'}})
                 break
     compare(ctx, reqs, metas)
     res.sample({'module_text': list(obs['texts'].values())[0][:1500], 'status': obs['status']})
